@@ -159,7 +159,7 @@ fn c12_twin_reach() {
     # rest of the environment is `#` or one IPA segment d. Reference = the property's own expansion: some k in M..=N with
     # x1..xk all equal to c and the rest matching right after them.
     OPT_HDR = "#[kani::proof]\n" + G.STUB_RS + "\n#[kani::unwind(8)]"
-    opt_shapes = [(1, 2, "#"), (0, 1, "I"), (0, 2, "#"), (2, 3, "#"), (1, 1, "I"), (1, 0, "#"), (0, 0, "I")] if tier == "thorough" else [(1, 2, "#"), [(0, 1, "I"), (0, 2, "#"), (2, 3, "#")][seed % 3]]
+    opt_shapes = [(1, 2, "#"), (0, 1, "I"), (0, 2, "#"), (2, 3, "#"), (1, 1, "I"), (1, 0, "#"), (0, 0, "I")] if tier == "thorough" else [(1, 2, "#"), (2, 3, "#"), [(0, 1, "I"), (0, 2, "#"), (1, 1, "I")][seed % 3]]
     for (mn, mx, rest) in opt_shapes:
         nm = "c12_optional_%d_%d_%s" % (mn, mx, "W" if rest == "#" else "I")
         hi = 3 if mx == 0 else min(mx, 3)          # max == 0 encodes "no upper bound" (doc: `(X,M:0)` / `(X,0)`)
